@@ -12,11 +12,11 @@ import (
 
 const extCanon = "http://example.com/psa/ext/1.0"
 
-func bp(b []byte) *[]byte { return &b }
-func sp(s string) *string { return &s }
-func i32p(v int32) *int32 { return &v }
+func bp(b []byte) *[]byte   { return &b }
+func sp(s string) *string   { return &s }
+func i32p(v int32) *int32   { return &v }
 func u16p(v uint16) *uint16 { return &v }
-func uip(v uint) *uint    { return &v }
+func uip(v uint) *uint      { return &v }
 
 func fill(n int, seed byte) []byte {
 	b := make([]byte, n)
